@@ -82,11 +82,12 @@ def nodeOf (v : Prim R) : Obj :=
     | _ => .other
   | _ => .other
 
-/-- the object table of an opened file as the page-tree code sees it -/
-def tblB (env : Env R) (pfuel : Nat) (dec : Dict R → List UInt8 → Out (List UInt8)) (rfuel : Nat)
+/-- the object table of an opened file as the page-tree code sees it; `rd`: the typed reader of a node
+    (`nodeOf` in the driver and in `page_nth_bytes_partial`) -/
+def tblB (rd : Prim R → Obj) (env : Env R) (pfuel : Nat) (dec : Dict R → List UInt8 → Out (List UInt8)) (rfuel : Nat)
     (bytes : List UInt8) (start : Nat) (t : Xref.Table) : Tbl := fun id =>
   match resolveB env pfuel dec rfuel bytes start t id with
-  | .ok (.plain v) => some (nodeOf v)
+  | .ok (.plain v) => some (rd v)
   | _ => none
 
 /-- trailer /Root → catalog → /Pages -/
@@ -104,13 +105,13 @@ def rootOf (env : Env R) (pfuel : Nat) (dec : Dict R → List UInt8 → Out (Lis
   | _ => .err
 
 /-- `File::load` as far as the page tree is concerned: the table and the loaded root node -/
-def openPagesB (env : Env R) (pfuel : Nat) (dec : Dict R → List UInt8 → Out (List UInt8)) (ofuel rfuel lfuel : Nat)
+def openPagesB (rd : Prim R → Obj) (env : Env R) (pfuel : Nat) (dec : Dict R → List UInt8 → Out (List UInt8)) (ofuel rfuel lfuel : Nat)
     (bytes : List UInt8) : Out (Tbl × TreeRec) :=
   match openB env pfuel dec ofuel bytes with
   | .ok (start, t, T) =>
     match rootOf env pfuel dec rfuel bytes start t T with
     | .ok p =>
-      let tbl := tblB env pfuel dec rfuel bytes start t
+      let tbl := tblB rd env pfuel dec rfuel bytes start t
       match loadRoot tbl lfuel p with
       | .ok r => .ok (tbl, r)
       | .err => .err | .panic => .panic | .oof => .oof
@@ -118,16 +119,16 @@ def openPagesB (env : Env R) (pfuel : Nat) (dec : Dict R → List UInt8 → Out 
   | .err => .err | .panic => .panic | .oof => .oof
 
 /-- `File::get_page(i)` from the bytes of the file -/
-def getPageB (env : Env R) (pfuel : Nat) (dec : Dict R → List UInt8 → Out (List UInt8)) (ofuel rfuel lfuel : Nat)
+def getPageB (rd : Prim R → Obj) (env : Env R) (pfuel : Nat) (dec : Dict R → List UInt8 → Out (List UInt8)) (ofuel rfuel lfuel : Nat)
     (bytes : List UInt8) (i : Nat) : Out Leaf :=
-  match openPagesB env pfuel dec ofuel rfuel lfuel bytes with
+  match openPagesB rd env pfuel dec ofuel rfuel lfuel bytes with
   | .ok (tbl, r) => getPage tbl lfuel r i
   | .err => .err | .panic => .panic | .oof => .oof
 
 /-- `File::num_pages` from the bytes of the file -/
-def numPagesB (env : Env R) (pfuel : Nat) (dec : Dict R → List UInt8 → Out (List UInt8)) (ofuel rfuel lfuel : Nat)
+def numPagesB (rd : Prim R → Obj) (env : Env R) (pfuel : Nat) (dec : Dict R → List UInt8 → Out (List UInt8)) (ofuel rfuel lfuel : Nat)
     (bytes : List UInt8) : Out Nat :=
-  match openPagesB env pfuel dec ofuel rfuel lfuel bytes with
+  match openPagesB rd env pfuel dec ofuel rfuel lfuel bytes with
   | .ok (_, r) => .ok (numPages r)
   | .err => .err | .panic => .panic | .oof => .oof
 
